@@ -103,6 +103,7 @@ var specStructs = [][2]string{
 	{"wallet.W5Actions", "OutList"}, {"wallet.W5ExtendedAction", "W5ExtendedAction"},
 	{"wallet.W5ExtendedActions", "W5ExtendedActions"}, {"wallet.MessageV5", "WalletV5R1Body"},
 	{"wallet.HighloadV2Message", "HighloadV2Body"},
+	{"tlb.BurningConfig", "BurningConfig"}, {"tlb.MsgMetadata", "MsgMetadata"},
 }
 
 func genC04(g *h.G) {
